@@ -45,6 +45,12 @@ type c12Case struct {
 	// inside the states' locked sections, so the other clients queue up on
 	// the lock and run in the gaps between the locked steps of a request.
 	StoreDelayUs int `json:"storeDelayUs,omitempty"`
+	// Hooks installs the cron state hooks (as sys.System does): the hooks
+	// run inside the locked sections with a per-context privilege.
+	Hooks bool `json:"hooks,omitempty"`
+	// EnvActions makes the rules' actions write a fact of their own
+	// (Env.AddFact) besides returning their tag.
+	EnvActions bool `json:"envActions,omitempty"`
 }
 
 // c12SlowStore delays writes (see StoreDelayUs).
@@ -105,6 +111,8 @@ func genC12(t *rapid.T) c12Case {
 		c.Spin = append(c.Spin, rapid.SampledFrom([]int{0, 0, 100, 1000, 10000}).Draw(t, fmt.Sprintf("c%d.spin", i)))
 	}
 	c.StoreDelayUs = rapid.SampledFrom([]int{0, 0, 20, 100}).Draw(t, "storeDelayUs")
+	c.Hooks = rapid.IntRange(0, 2).Draw(t, "hooks") == 0
+	c.EnvActions = rapid.IntRange(0, 2).Draw(t, "envActions") == 0
 	if focus != "mixed" {
 		// several runs of a focused workload sample several schedules
 		c.Repeat = rapid.SampledFrom([]int{1, 3, 10}).Draw(t, "repeat")
@@ -156,6 +164,11 @@ type c12In struct {
 	// Free marks an event that overlapped a rule operation of another
 	// client (set after the run; see event-dispatch-not-atomic).
 	Free bool
+	// Hooks: the state has the cron hooks, with which removing something
+	// that is not there reports not-found (and removes nothing).
+	Hooks bool
+	// Env: the rule's action also writes a fact (addRule only).
+	Env bool
 }
 
 type c12Out struct {
@@ -172,6 +185,12 @@ func c12Step(st interface{}, in interface{}, out interface{}) (bool, interface{}
 		n.Facts[i.Id] = i.V
 		return o.Err == "", n
 	case "remFact":
+		if _, have := s.Facts[i.Id]; !have && i.Hooks {
+			// (removing what is not there: silently accepted by the
+			// states, reported as not-found by the hooks; either way
+			// nothing changes)
+			return o.Err == "notfound" || o.Err == "", s
+		}
 		n := s.clone()
 		delete(n.Facts, i.Id)
 		return o.Err == "", n
@@ -193,6 +212,10 @@ func c12Step(st interface{}, in interface{}, out interface{}) (bool, interface{}
 		n.Rules[i.Id] = i.V
 		return o.Err == "", n
 	case "remRule":
+		if _, have := s.Rules[i.Id]; !have && i.Hooks && o.Err == "notfound" {
+			// (nothing was removed, the disabled flag stays)
+			return true, s
+		}
 		n := s.clone()
 		delete(n.Rules, i.Id)
 		delete(n.Disabled, i.Id)
@@ -202,6 +225,9 @@ func c12Step(st interface{}, in interface{}, out interface{}) (bool, interface{}
 		n.Disabled[i.Id] = true
 		return o.Err == "", n
 	case "enable":
+		if !s.Disabled[i.Id] && i.Hooks {
+			return o.Err == "notfound" || o.Err == "", s
+		}
 		n := s.clone()
 		delete(n.Disabled, i.Id)
 		return o.Err == "", n
@@ -292,7 +318,11 @@ func c12Exec(loc *core.Location, in c12In) c12Out {
 		sort.Strings(rows)
 		return c12Out{Res: strings.Join(rows, ",")}
 	case "addRule":
-		_, err := loc.AddRule(ctx, in.Id, core.Map(mkRule(M{"go": "1"}, in.V)))
+		rule := mkRule(M{"go": "1"}, in.V)
+		if in.Env {
+			rule["action"] = M{"code": "Env.AddFact('made_' + ruleId, {made: '" + in.V + "'}); '" + in.V + "'"}
+		}
+		_, err := loc.AddRule(ctx, in.Id, core.Map(rule))
 		return c12Out{Err: errStr(err)}
 	case "remRule":
 		_, err := loc.RemRule(ctx, in.Id)
@@ -316,7 +346,9 @@ func c12Exec(loc *core.Location, in c12In) c12Out {
 		if a, ok := r["action"].(map[string]interface{}); ok {
 			code, _ = a["code"].(string)
 		}
-		return c12Out{Res: strings.Trim(code, "'")}
+		// the tag is the last quoted string of the action
+		code = strings.TrimSuffix(code, "'")
+		return c12Out{Res: code[strings.LastIndex(code, "'")+1:]}
 	case "event":
 		work, cond := loc.ProcessEvent(ctx, core.Map{"go": "1"})
 		if cond != nil {
@@ -355,6 +387,9 @@ func runC12Once(c c12Case, o *vlib.Outcome) *vlib.Outcome {
 		store = &c12SlowStore{mem, time.Duration(c.StoreDelayUs) * time.Microsecond}
 	}
 	w := newWorld(c.Kind, store, o)
+	if c.Hooks {
+		w.withCronHooks()
+	}
 	loc, err := w.open("L")
 	if err != nil {
 		o.Fail("OPEN", "%v", err)
@@ -376,7 +411,7 @@ func runC12Once(c c12Case, o *vlib.Outcome) *vlib.Outcome {
 			}
 			_ = x
 			for j, op := range ops {
-				in := c12In{K: op.K, Id: op.Id, V: fmt.Sprintf("c%d.%d", ci, j)}
+				in := c12In{K: op.K, Id: op.Id, V: fmt.Sprintf("c%d.%d", ci, j), Hooks: c.Hooks, Env: c.EnvActions && op.K == "addRule"}
 				call := time.Since(t0).Nanoseconds()
 				out := c12Exec(loc, in)
 				ret := time.Since(t0).Nanoseconds()
@@ -401,7 +436,7 @@ func runC12Once(c c12Case, o *vlib.Outcome) *vlib.Outcome {
 	for i, a := range history {
 		out := a.Output.(c12Out)
 		in := a.Input.(c12In)
-		if out.Err != "" && !((in.K == "getFact" || in.K == "getRule") && out.Err == "notfound") {
+		if out.Err != "" && !((in.K == "getFact" || in.K == "getRule" || (c.Hooks && (in.K == "remFact" || in.K == "remRule" || in.K == "enable"))) && out.Err == "notfound") {
 			o.Fail("OPERATION_FAILED", "client %d: %+v failed under concurrency: %s", a.ClientId, in, out.Err)
 			return o
 		}
@@ -463,7 +498,7 @@ func runC12Once(c c12Case, o *vlib.Outcome) *vlib.Outcome {
 	}
 	// memory and storage agree at the end
 	keys, _ := w.storageKeys("L")
-	for _, id := range append(append([]string{}, c12FactIds...), c12RuleIds...) {
+	for _, id := range append(append([]string{"made_r1", "made_r2"}, c12FactIds...), c12RuleIds...) {
 		f, err := loc.GetFact(newCtx(), id)
 		js, stored := keys[id]
 		if (err == nil) != stored {
@@ -473,7 +508,7 @@ func runC12Once(c c12Case, o *vlib.Outcome) *vlib.Outcome {
 		if err == nil {
 			var sm M
 			json.Unmarshal([]byte(js), &sm)
-			if fmt.Sprint(sm["v"]) != fmt.Sprint(f["v"]) {
+			if fmt.Sprint(sm["v"]) != fmt.Sprint(f["v"]) || fmt.Sprint(sm["made"]) != fmt.Sprint(f["made"]) {
 				o.Fail("MEMORY_STORAGE_DIVERGE", "[%s] after the workload id %q has v=%v in memory but v=%v in storage", c.Kind, id, f["v"], sm["v"])
 				return o
 			}
